@@ -62,7 +62,14 @@ pub struct Wire {
 /// Produce the wire image of the planned messages with the real blocking sender writing into
 /// an unbounded pipe (single party, direct back-end).
 pub fn wire_of<M: ZooMsg + ?Sized>(plan: &Arc<Plan>) -> Result<Wire, String> {
-    if cfg!(miri) || std::env::var("FLATSIM_WIRE_DIRECT").is_ok() {
+    if !(cfg!(miri) || std::env::var("FLATSIM_WIRE_DIRECT").is_ok()) {
+        // a broken *sender* is C07/C08/C09's business; C06 and C10 judge validate and the receiver
+        // and then take the frames from a direct emplacement instead
+        if let Ok(w) = wire_of_sender::<M>(plan) {
+            return Ok(w);
+        }
+    }
+    {
         // Under Miri the sender's IoBuffer would hand uninitialised padding bytes to the harness
         // (AlignedBytes::new does not initialise); the harness compares and mutates frames, so
         // for the UB tier the frames are emplaced into an initialised scratch buffer instead.
@@ -76,8 +83,11 @@ pub fn wire_of<M: ZooMsg + ?Sized>(plan: &Arc<Plan>) -> Result<Wire, String> {
             frames.push(buf[..size].to_vec());
             vals.push(val);
         }
-        return Ok(Wire { frames, vals });
+        Ok(Wire { frames, vals })
     }
+}
+
+fn wire_of_sender<M: ZooMsg + ?Sized>(plan: &Arc<Plan>) -> Result<Wire, String> {
     let knobs = Knobs::benign(1 << 30);
     let mut w = World::new(Decider::from_tape(Default::default()), knobs, false);
     w.prop = "C06";
@@ -473,6 +483,11 @@ pub fn run_receiver_only<M: ZooMsg + ?Sized>(
     world.pipe.accepted_total = stream.len();
     world.pipe.buf = stream.into();
     world.pipe.writer_closed = true;
+    if prop == "C10" && is_async && world.dec.chance(St::Cfg, 1, 4) {
+        // the hostile peer stays connected and says nothing more
+        world.pipe.writer_closed = false;
+        world.silent_peer = true;
+    }
     let sh: Shared = Arc::new(Mutex::new(world));
     if is_async {
         let t: Task = Box::pin(receiver_async::<M>(sh.clone(), plan.clone()));
